@@ -206,6 +206,24 @@ def _chk_arm(args, res, old):
             return "arm piece labelled %s is empty or mixes chromosomes" % c
     if any(v > 2 for v in per.values()):
         return "more than two arms on a chromosome: %r" % per
+    # where the arms part: at the largest gap between neighbouring bins of the chromosome's interior (at least
+    # max(50, 10%) bins away from either end), provided that gap is centromere-sized (>= 100 kb); otherwise one piece
+    for c in per:
+        sub = cn.data[cn.data.chromosome == c]
+        n = len(sub)
+        margin = max(50, int(round(0.1 * n)))
+        st_, en_ = list(sub.start), list(sub.end)
+        split = None
+        if n > 2 * margin + 1:
+            cand = [(st_[j] - en_[j - 1], -j) for j in range(margin + 1, n - margin)]
+            if cand:
+                g, negj = max(cand)
+                if g >= 100000:
+                    split = -negj
+        pieces = [a for cc, a in parts if cc == c]
+        got = None if len(pieces) == 1 else len(pieces[0])
+        if got != split:
+            return "by_arm splits %s (%d bins) before bin %r, the largest interior gap is before bin %r" % (c, n, got, split)
 
 
 contract("skgenome/gary.py::GenomicArray.by_arm", params=dict(cnarr=ObjT("CopyNumArray")), bounded=True, gen=_gen_arm,
